@@ -1,13 +1,19 @@
 (** C01 — the query core: an executable token-level model of the SELECT / query skeleton of
     sqlparser-rs:
-      printer  [qtoks]       = the tokens [impl Display for Query / SetExpr / Select / SelectItem /
-                               TableFactor / OrderByExpr / Offset] (src/ast/query.rs) print for the
-                               fragment (canonical keyword spelling, [AS] before every alias);
-      parser   [parse_query] = [Parser::parse_query], [parse_query_body] / [parse_remaining_set_exprs],
-                               [parse_select], [parse_projection] / [parse_select_item],
-                               [parse_table_and_joins] / [parse_table_factor] (tables and derived tables),
-                               [parse_optional_alias] with the RESERVED_FOR_COLUMN_ALIAS /
-                               RESERVED_FOR_TABLE_ALIAS rule, [parse_comma_separated],
+      printer  [qtoks]       = the tokens [impl Display for Query / With / Cte / SetExpr / Select /
+                               SelectItem / TableWithJoins / Join / TableFactor / TableAlias /
+                               OrderByExpr / Offset] (src/ast/query.rs) print for the fragment (canonical
+                               keyword spelling: [AS] before every alias, NATURAL in front of the join
+                               keywords, no INNER, no OUTER, [USING(..)]);
+      parser   [parse_query] = [Parser::parse_query] with its WITH branch and [parse_cte],
+                               [parse_query_body] / [parse_remaining_set_exprs], [parse_select],
+                               [parse_projection] / [parse_select_item], [parse_table_and_joins] (the join
+                               loop: [INNER] JOIN, LEFT / RIGHT / FULL [OUTER] JOIN, CROSS JOIN, NATURAL,
+                               [parse_join_constraint]: ON / USING / none), [parse_table_factor] (tables,
+                               derived tables, nested joins: maybe_parse(derived table) and the fallback to
+                               a parenthesised join), [parse_optional_alias] with the
+                               RESERVED_FOR_COLUMN_ALIAS / RESERVED_FOR_TABLE_ALIAS rule,
+                               [parse_parenthesized_column_list], [parse_comma_separated],
                                [parse_optional_group_by], [parse_optional_order_by], the LIMIT / OFFSET
                                loop (src/parser/mod.rs).
     Expressions are the operator core of Pratt.v, parsed by [Pratt.parse_expr] (binding power
@@ -19,7 +25,9 @@ From SqlV Require Import Base PrecSpec Pratt SetOps PrinterCore.
 (** * Tokens: the expression alphabet of PrecSpec plus the query keywords *)
 Inductive qkw :=
   KSelect | KWhere | KGroup | KBy | KHaving | KOrder | KAsc | KDesc | KLimit | KOffset | KAs
-| KUnion | KExcept | KIntersect.
+| KUnion | KExcept | KIntersect
+| KJoin | KInner | KLeft | KRight | KFull | KOuter | KCross | KNatural | KOn | KUsing
+| KWith | KRecursive.
 
 Inductive qtok :=
 | QE (t : tok)      (* a token of the expression alphabet: identifiers / numbers / strings, operators
@@ -59,24 +67,29 @@ Inductive item :=
 | IExpr (e : expr)                       (* SelectItem::UnnamedExpr *)
 | IAlias (e : expr) (a : qtok).          (* SelectItem::ExprWithAlias; the alias is its word token *)
 
-Inductive qry (B : Type) :=
-  Query (body : B) (order_by : list (expr * option bool)) (limit offset : option expr).
-Arguments Query {B}.
-
-Inductive tref (B : Type) :=
-| TTable (name : qtok) (alias : option qtok)
-| TDerived (q : qry B) (alias : option qtok).
-Arguments TTable {B}. Arguments TDerived {B}.
+(** [JoinOperator] / [JoinConstraint]: Inner | LeftOuter | RightOuter | FullOuter with a constraint,
+    CrossJoin without *)
+Inductive jkind := JInner | JLeft | JRight | JFull.
+Inductive jcons := JOn (e : expr) | JUsing (cols : list qtok) | JNatural | JNone.
+Inductive jop := JCross | JOp (k : jkind) (c : jcons).
 
 Inductive setexpr :=
-| BSelect (distinct : bool) (items : list item) (from : list (tref setexpr)) (selection : option expr)
+| BSelect (distinct : bool) (items : list item) (from : list twj) (selection : option expr)
           (group_by : list expr) (having : option expr)
 | BSetOp (o : setop) (q : squant) (l r : setexpr)
-| BNested (q : qry setexpr).
+| BNested (q : query)
+with query :=
+| Query (w : option withc) (body : setexpr) (order_by : list (expr * option bool)) (limit offset : option expr)
+with tref :=                                          (* TableFactor *)
+| TTable (name : qtok) (alias : option qtok)
+| TDerived (q : query) (alias : option qtok)
+| TNested (t : twj) (alias : option qtok)             (* NestedJoin *)
+with twj := Twj (rel : tref) (joins : list join)      (* TableWithJoins *)
+with join := Join (op : jop) (rel : tref)
+with withc := With (recursive : bool) (ctes : list cte)
+with cte := Cte (name : qtok) (cols : list qtok) (q : query).
 
-Definition query := qry setexpr.
-
-Definition body (q : query) : setexpr := match q with Query b _ _ _ => b end.
+Definition body (q : query) : setexpr := match q with Query _ b _ _ _ => b end.
 
 (** * Printer (token level) *)
 Definition qe (ts : list tok) : list qtok := map QE ts.
@@ -119,48 +132,92 @@ Definition quant_toks (q : squant) : list qtok :=
 Definition from_toks (l : list (list qtok)) : list qtok :=
   match l with [] => [] | _ => QE (TKw KFrom) :: sepc l end.
 
+(** a parenthesised column list [(a, b)] *)
+Definition cols_toks (cols : list qtok) : list qtok :=
+  QE TLParen :: sepc (map (fun c => [c]) cols) ++ [QE TRParen].
+
+(** [impl Display for Join]: NATURAL is written in front of the join keywords; OUTER and INNER are
+    never written; [USING(..)] *)
+Definition jkind_toks (k : jkind) : list qtok :=
+  match k with
+  | JInner => [QK KJoin]
+  | JLeft => [QK KLeft; QK KJoin]
+  | JRight => [QK KRight; QK KJoin]
+  | JFull => [QK KFull; QK KJoin]
+  end.
+Definition jop_pre (o : jop) : list qtok :=
+  match o with
+  | JCross => [QK KCross; QK KJoin]
+  | JOp k JNatural => QK KNatural :: jkind_toks k
+  | JOp k _ => jkind_toks k
+  end.
+Definition jop_suf (o : jop) : list qtok :=
+  match o with
+  | JOp _ (JOn e) => QK KOn :: qe (ptoks e)
+  | JOp _ (JUsing cols) => QK KUsing :: cols_toks cols
+  | _ => []
+  end.
+Definition rec_toks (b : bool) : list qtok := if b then [QK KRecursive] else [].
+(** [TableAlias]: [name (a, b)], the column list only when there is one *)
+Definition ccols_toks (cols : list qtok) : list qtok :=
+  match cols with [] => [] | _ => cols_toks cols end.
+
 Fixpoint btoks (b : setexpr) : list qtok :=
   match b with
   | BSelect dist items from wh gb hv =>
       QK KSelect :: dist_toks dist ++ sepc (map item_toks items) ++
-      from_toks (map (fun t =>
-         match t with
-         | TTable n a => n :: alias_toks a
-         | TDerived (Query b' ob lim off) a =>
-             QE TLParen :: (btoks b' ++ order_toks ob ++ clause_toks (QK KLimit) lim ++ clause_toks (QK KOffset) off)
-             ++ QE TRParen :: alias_toks a
-         end) from) ++
+      from_toks (map twj_toks from) ++
       clause_toks (QK KWhere) wh ++ group_toks gb ++ clause_toks (QK KHaving) hv
   | BSetOp o q l r => btoks l ++ setop_kw o :: quant_toks q ++ btoks r
-  | BNested (Query b' ob lim off) =>
-      QE TLParen :: (btoks b' ++ order_toks ob ++ clause_toks (QK KLimit) lim ++ clause_toks (QK KOffset) off)
-      ++ [QE TRParen]
-  end.
-
-Definition qtoks (q : query) : list qtok :=
+  | BNested q => QE TLParen :: qtoks q ++ [QE TRParen]
+  end
+with qtoks (q : query) : list qtok :=
   match q with
-  | Query b ob lim off => btoks b ++ order_toks ob ++ clause_toks (QK KLimit) lim ++ clause_toks (QK KOffset) off
-  end.
-
-Definition tref_toks (t : tref setexpr) : list qtok :=
+  | Query w b ob lim off =>
+      match w with Some x => with_toks x | None => [] end ++
+      btoks b ++ order_toks ob ++ clause_toks (QK KLimit) lim ++ clause_toks (QK KOffset) off
+  end
+with tref_toks (t : tref) : list qtok :=
   match t with
   | TTable n a => n :: alias_toks a
   | TDerived q a => QE TLParen :: qtoks q ++ QE TRParen :: alias_toks a
+  | TNested t' a => QE TLParen :: twj_toks t' ++ QE TRParen :: alias_toks a
+  end
+with twj_toks (t : twj) : list qtok :=
+  match t with Twj r js => tref_toks r ++ concat (map join_toks js) end
+with join_toks (j : join) : list qtok :=
+  match j with Join o r => jop_pre o ++ tref_toks r ++ jop_suf o end
+with with_toks (w : withc) : list qtok :=
+  match w with With rc ctes => QK KWith :: rec_toks rc ++ sepc (map cte_toks ctes) end
+with cte_toks (c : cte) : list qtok :=
+  match c with
+  | Cte n cols q => n :: ccols_toks cols ++ QK KAs :: QE TLParen :: qtoks q ++ [QE TRParen]
   end.
 
-(** * Nesting level = the fuel [parse_query] needs *)
+Definition wtoks (w : option withc) : list qtok :=
+  match w with Some x => with_toks x | None => [] end.
+
+(** * Nesting level = the fuel [parse_query] needs: derived tables, parenthesised operands, right
+    operands of set operators, nested joins, common table expressions *)
 Definition maxl (l : list nat) : nat := fold_right Nat.max O l.
 
 Fixpoint blevel (b : setexpr) : nat :=
   match b with
-  | BSelect _ _ from _ _ _ =>
-      S (maxl (map (fun t => match t with TTable _ _ => O | TDerived (Query b' _ _ _) _ => blevel b' end) from))
+  | BSelect _ _ from _ _ _ => S (maxl (map twjlevel from))
   | BSetOp _ _ l r => Nat.max (blevel l) (S (blevel r))
-  | BNested (Query b' _ _ _) => S (blevel b')
-  end.
-Definition qlevel (q : query) : nat := blevel (body q).
-Definition tlevel (t : tref setexpr) : nat :=
-  match t with TTable _ _ => O | TDerived q _ => qlevel q end.
+  | BNested q => S (qlevel q)
+  end
+with qlevel (q : query) : nat :=
+  match q with
+  | Query w b _ _ _ => Nat.max (match w with Some x => S (wlevel x) | None => O end) (blevel b)
+  end
+with tlevel (t : tref) : nat :=
+  match t with TTable _ _ => O | TDerived q _ => qlevel q | TNested t' _ => S (twjlevel t') end
+with twjlevel (t : twj) : nat :=
+  match t with Twj r js => Nat.max (tlevel r) (maxl (map jlevel js)) end
+with jlevel (j : join) : nat := match j with Join _ r => tlevel r end
+with wlevel (w : withc) : nat := match w with With _ ctes => maxl (map clevel ctes) end
+with clevel (c : cte) : nat := match c with Cte _ _ q => qlevel q end.
 
 (** * The dialect *)
 Record qdialect := {
@@ -177,25 +234,34 @@ Record qdialect := {
   unnest_table : bool;         (* FROM UNNEST(..) is a table factor of its own *)
   hyphen_table : bool;         (* hyphenated table names (BigQuery) *)
   group_by_expr : bool;        (* supports_group_by_expr: GROUP BY () / ROLLUP / CUBE / GROUPING SETS *)
-  paren_tables : bool          (* FROM (t) (Snowflake, Generic) *)
+  paren_tables : bool;         (* FROM (t) (Snowflake, Generic) *)
+  group_with : bool            (* GROUP BY .. WITH ROLLUP | CUBE | TOTALS (ClickHouse, Generic) *)
 }.
 
-(** * Expressions: what [Parser::parse_expr] sees of the token stream.  The first token outside the
-    expression alphabet ends its view; it is shown as a word the expression parser gives no binding
-    power ([TType 0]: no such type).  If the expression parser consumes it (a keyword used as an
-    identifier or as a type name) the input is outside the fragment. *)
-Fixpoint cut (l : list qtok) : list tok :=
+(** * Expressions: what [Parser::parse_expr] sees of the token stream.  Its view ends at the first
+    token outside the expression alphabet, shown as a word the expression parser gives no binding
+    power ([TType 0]: no such type), or at the first closing parenthesis that has no partner in the
+    view (no construct of the expression grammar consumes one).  If the expression parser consumes the
+    token its view ends with (a keyword used as an identifier or as a type name) the input is outside
+    the fragment. *)
+Fixpoint cutd (k : nat) (l : list qtok) : list tok :=
   match l with
-  | QE t :: r => t :: cut r
+  | QE TLParen :: r => TLParen :: cutd (S k) r
+  | QE TRParen :: r => match k with O => [TRParen] | S k' => TRParen :: cutd k' r end
+  | QE t :: r => t :: cutd k r
   | [] => []
   | _ :: _ => [TType 0]
   end.
-Fixpoint has_stop (l : list qtok) : bool :=
+Fixpoint has_stopd (k : nat) (l : list qtok) : bool :=
   match l with
-  | QE _ :: r => has_stop r
+  | QE TLParen :: r => has_stopd (S k) r
+  | QE TRParen :: r => match k with O => true | S k' => has_stopd k' r end
+  | QE _ :: r => has_stopd k r
   | [] => false
   | _ :: _ => true
   end.
+Definition cut (l : list qtok) : list tok := cutd O l.
+Definition has_stop (l : list qtok) : bool := has_stopd O l.
 
 Definition pexpr (d : dialect) (l : list qtok) : res (expr * list qtok) :=
   let ts := cut l in
@@ -280,6 +346,8 @@ Definition parse_quant (ts : list qtok) : squant * list qtok :=
   | _ => (QNone, ts)
   end.
 
+Definition is_some {A} (x : option A) : bool := match x with Some _ => true | None => false end.
+
 (** [parse_keyword] / [consume_token]: is the next token [k]? *)
 Definition opt_tok (k : qtok) (ts : list qtok) : bool * list qtok :=
   match ts with
@@ -295,9 +363,11 @@ Definition opt_tok2 (k1 k2 : qtok) (ts : list qtok) : bool * list qtok :=
 
 Section Level.
   Variable d : qdialect.
-  (** the recursive calls one nesting level down: [parse_query], [parse_query_body(precedence)] *)
+  (** the recursive calls one nesting level down: [parse_query], [parse_query_body(precedence)] ... *)
   Variable recq : list qtok -> res (query * list qtok).
   Variable recb : N -> list qtok -> res (setexpr * list qtok).
+  (** ... and [parse_table_and_joins] inside the parentheses of a nested join *)
+  Variable rect : list qtok -> res (twj * list qtok).
 
   (** [options.trailing_commas] while a list of this dialect is parsed *)
   Definition trail_all : option (list qtok) := if trailing d then Some (res_col d) else None.
@@ -328,8 +398,27 @@ Section Level.
     | _ => parse_item_expr ts
     end.
 
-  (** [parse_table_and_joins] / [parse_table_factor]: a table name or a derived table, each with an
-      optional alias (join keywords are outside the alphabet) *)
+  (** [parse_identifier(false)]: any word; a quoted string is an identifier outside the fragment *)
+  Definition parse_ident (ts : list qtok) : res (qtok * list qtok) :=
+    match ts with
+    | w :: r =>
+        if is_word w then Ok (w, r)
+        else match w with
+             | QE (TAtom true _) | QOther | QE TOther => OutOfFragment
+             | _ => Err
+             end
+    | [] => Err
+    end.
+
+  (** [parse_parenthesized_column_list], after the opening parenthesis *)
+  Definition parse_cols (ts : list qtok) : res (list qtok * list qtok) :=
+    bind (comma_list parse_ident trail_all (S (length ts)) ts) (fun '(cols, r) =>
+      match r with
+      | QE TRParen :: r' => Ok (cols, r')
+      | _ => Err
+      end).
+
+  (** [parse_table_factor]: a table name, a derived table or a nested join, each with an optional alias *)
   (** after a table name: [(] starts the arguments of a table function, [-] continues a hyphenated
       BigQuery name *)
   Definition table_follow (r : list qtok) : res unit :=
@@ -339,33 +428,128 @@ Section Level.
     | _ => Ok tt
     end.
 
-  Definition parse_tref (ts : list qtok) : res (tref setexpr * list qtok) :=
+  (** what [( .. )] in FROM may hold besides a query: a table with joins, or a nested join *)
+  Definition nested_shape (t : twj) : bool :=
+    match t with
+    | Twj _ (_ :: _) => true
+    | Twj (TNested _ _) [] => true
+    | _ => false
+    end.
+  (** a parenthesised join whose first table is named SELECT or WITH: the parser gets there by
+      backtracking from a failed attempt to read a query; outside the fragment *)
+  Definition starter (w : qtok) : bool := qtok_eqb w (QK KSelect) || qtok_eqb w (QK KWith).
+  Definition first_ok (t : tref) : bool :=
+    match t with TTable n _ => negb (starter n) | _ => true end.
+  Definition first_of (t : twj) : tref := match t with Twj r _ => r end.
+
+  (** [parse_derived_table_factor], after the opening parenthesis *)
+  Definition parse_derived (r : list qtok) : res (tref * list qtok) :=
+    match recq r with
+    | Ok (q, QE TRParen :: r1) =>
+        bind (parse_talias (res_tab d) r1) (fun '(a, r2) => Ok (TDerived q a, r2))
+    | Ok _ => Err
+    | Err => Err
+    | OutOfFragment => OutOfFragment
+    | OutOfFuel => OutOfFuel
+    end.
+
+  Definition parse_tref (ts : list qtok) : res (tref * list qtok) :=
     match ts with
     | QE TLParen :: r =>
-        let derived :=
-          match recq r with
-          | Ok (q, QE TRParen :: r1) =>
-              bind (parse_talias (res_tab d) r1) (fun '(a, r2) => Ok (TDerived q a, r2))
-          | Ok _ => Err
-          | Err => Err
-          | OutOfFragment => OutOfFragment
-          | OutOfFuel => OutOfFuel
-          end in
-        match derived with
-        | Err => if paren_tables d then OutOfFragment else Err    (* maybe_parse: nested join / (table) *)
+        match parse_derived r with         (* maybe_parse(parse_derived_table_factor) *)
+        | Err =>                           (* rewind: parse_table_and_joins, one level down *)
+            bind (rect r) (fun '(tw, r1) =>
+              if nested_shape tw then
+                if negb (first_ok (first_of tw)) then OutOfFragment else
+                match r1 with
+                | QE TRParen :: r2 =>
+                    bind (parse_talias (res_tab d) r2) (fun '(a, r3) => Ok (TNested tw a, r3))
+                | _ => Err
+                end
+              else if paren_tables d then OutOfFragment     (* (table) [alias]: Snowflake, Generic *)
+              else Err)
         | x => x
         end
     | w :: r =>
         if is_word w then
           if unnest_table d && qtok_eqb w (QE (TKw KUnnest)) then OutOfFragment
           else bind (table_follow r) (fun _ =>
-                 bind (parse_talias (res_tab d) r) (fun '(a, r1) => Ok (TTable w a, r1)))
+                 bind (parse_talias (res_tab d) r) (fun '(a, r1) =>
+                   match r1 with
+                   | QK KWith :: QE TLParen :: _ => OutOfFragment          (* WITH (hints) *)
+                   | _ => Ok (TTable w a, r1)
+                   end))
         else match w with
              | QE (TAtom true _) | QOther | QE TOther => OutOfFragment
              | _ => Err
              end
     | [] => Err
     end.
+
+  (** the join keywords of [parse_table_and_joins] after an optional NATURAL (SEMI, ANTI, APPLY, ASOF,
+      GLOBAL are outside the alphabet): [None] = no join follows *)
+  Definition expect_join (k : jkind) (r : list qtok) : res (option (jkind * list qtok)) :=
+    match r with
+    | QK KJoin :: r1 => Ok (Some (k, r1))
+    | _ => Err
+    end.
+  Definition parse_jkind (ts : list qtok) : res (option (jkind * list qtok)) :=
+    match ts with
+    | QK KJoin :: r => Ok (Some (JInner, r))
+    | QK KInner :: r => expect_join JInner r
+    | QK KLeft :: r =>
+        match r with QK KOuter :: r1 => expect_join JLeft r1 | _ => expect_join JLeft r end
+    | QK KRight :: r =>
+        match r with QK KOuter :: r1 => expect_join JRight r1 | _ => expect_join JRight r end
+    | QK KFull :: r =>
+        match r with QK KOuter :: r1 => expect_join JFull r1 | _ => expect_join JFull r end
+    | QK KOuter :: _ => Err
+    | _ => Ok None
+    end.
+
+  (** [parse_join_constraint] *)
+  Definition parse_jcons (natural : bool) (ts : list qtok) : res (jcons * list qtok) :=
+    if natural then Ok (JNatural, ts)
+    else match ts with
+         | QK KOn :: r => bind (pex r) (fun '(e, r') => Ok (JOn e, r'))
+         | QK KUsing :: r =>
+             match r with
+             | QE TLParen :: r1 => bind (parse_cols r1) (fun '(cols, r2) => Ok (JUsing cols, r2))
+             | _ => Err
+             end
+         | _ => Ok (JNone, ts)
+         end.
+
+  (** the loop of [parse_table_and_joins] *)
+  Fixpoint join_loop (g : nat) (ts : list qtok) : res (list join * list qtok) :=
+    match g with
+    | O => OutOfFuel
+    | S g' =>
+        match ts with
+        | QK KCross :: r =>
+            match r with
+            | QK KJoin :: r1 =>
+                bind (parse_tref r1) (fun '(t, r2) =>
+                  bind (join_loop g' r2) (fun '(js, r3) => Ok (Join JCross t :: js, r3)))
+            | _ => Err                                        (* APPLY is outside the alphabet *)
+            end
+        | _ =>
+            let '(natural, r) := opt_tok (QK KNatural) ts in
+            bind (parse_jkind r) (fun o =>
+              match o with
+              | None => if natural then Err else Ok ([], ts)
+              | Some (k, r1) =>
+                  bind (parse_tref r1) (fun '(t, r2) =>
+                    bind (parse_jcons natural r2) (fun '(c, r3) =>
+                      bind (join_loop g' r3) (fun '(js, r4) => Ok (Join (JOp k c) t :: js, r4))))
+              end)
+        end
+    end.
+
+  (** [parse_table_and_joins] *)
+  Definition twj_step (ts : list qtok) : res (twj * list qtok) :=
+    bind (parse_tref ts) (fun '(t, r) =>
+      bind (join_loop (S (length r)) r) (fun '(js, r') => Ok (Twj t js, r'))).
 
   Definition opt_clause (k : qtok) (ts : list qtok) : res (option expr * list qtok) :=
     match ts with
@@ -390,16 +574,18 @@ Section Level.
       end).
 
   (** FROM <table>, ... *)
-  Definition parse_from (ts : list qtok) : res (list (tref setexpr) * list qtok) :=
+  Definition parse_from (ts : list qtok) : res (list twj * list qtok) :=
     let '(b, r) := opt_tok (QE (TKw KFrom)) ts in
-    if b then comma_list parse_tref trail_all (S (length r)) r else Ok ([], ts).
+    if b then comma_list twj_step trail_all (S (length r)) r else Ok ([], ts).
 
   (** [parse_optional_group_by] *)
   Definition parse_group_by (ts : list qtok) : res (list expr * list qtok) :=
     let '(b, r) := opt_tok2 (QK KGroup) (QK KBy) ts in
     if b then
       (if fst (opt_tok (QE (TKw KAll)) r) then OutOfFragment            (* GROUP BY ALL *)
-       else comma_list parse_group_elem trail_all (S (length r)) r)
+       else bind (comma_list parse_group_elem trail_all (S (length r)) r) (fun '(l, r') =>
+              (* WITH ROLLUP | CUBE | TOTALS: the modifiers are outside the alphabet *)
+              if group_with d && fst (opt_tok (QK KWith) r') then Err else Ok (l, r')))
     else Ok ([], ts).
 
   (** [parse_optional_order_by] *)
@@ -415,6 +601,7 @@ Section Level.
     let '(all, ts1) := opt_tok (QE (TKw KAll)) ts in
     let '(dist, ts2) := opt_tok (QE (TKw KDistinct)) ts1 in
     if all && dist then Err
+    else if dist && fst (opt_tok (QK KOn) ts2) then OutOfFragment     (* DISTINCT ON (..) *)
     else if proj_trailing d && comma_rparen ts2 then OutOfFragment
     else
     bind (comma_list parse_item trail_proj (S (length ts2)) ts2) (fun '(items, ts3) =>
@@ -484,29 +671,80 @@ Section Level.
     | _, _ => Ok ((lim1, off1), ts2)
     end)).
 
-  (** [parse_query] (no WITH / INSERT / UPDATE: outside the alphabet) *)
+  (** [parse_cte] (MATERIALIZED is outside the alphabet; a FROM after the closing parenthesis is
+      outside the fragment) *)
+  Definition parse_cte_body (n : qtok) (cols : list qtok) (r1 : list qtok) : res (cte * list qtok) :=
+    match r1 with
+    | QE TLParen :: r2 =>
+        bind (recq r2) (fun '(q, r3) =>
+          match r3 with
+          | QE TRParen :: r4 =>
+              match r4 with
+              | QE (TKw KFrom) :: _ => OutOfFragment
+              | _ => Ok (Cte n cols q, r4)
+              end
+          | _ => Err
+          end)
+    | _ => Err
+    end.
+
+  Definition parse_cte (ts : list qtok) : res (cte * list qtok) :=
+    bind (parse_ident ts) (fun '(n, r) =>
+      match r with
+      | QK KAs :: r1 => parse_cte_body n [] r1
+      | QE TLParen :: r1 =>
+          bind (parse_cols r1) (fun '(cols, r2) =>
+            match r2 with
+            | QK KAs :: r3 => parse_cte_body n cols r3
+            | _ => Err
+            end)
+      | _ => Err
+      end).
+
+  (** the WITH clause of [parse_query] *)
+  Definition parse_with (ts : list qtok) : res (option withc * list qtok) :=
+    match ts with
+    | QK KWith :: r =>
+        let '(rc, r1) := opt_tok (QK KRecursive) r in
+        bind (comma_list parse_cte trail_all (S (length r1)) r1) (fun '(ctes, r2) =>
+          Ok (Some (With rc ctes), r2))
+    | _ => Ok (None, ts)
+    end.
+
+  (** [parse_query] (INSERT / UPDATE bodies are outside the alphabet) *)
   Definition query_step (ts : list qtok) : res (query * list qtok) :=
-    bind (body_step (lvl (base d) K_UNKNOWN) ts) (fun '(b, ts1) =>
+    bind (parse_with ts) (fun '(w, ts0) =>
+    bind (body_step (lvl (base d) K_UNKNOWN) ts0) (fun '(b, ts1) =>
     bind (parse_order_by ts1) (fun '(ob, ts2) =>
     bind (limit_iter (None, None) ts2) (fun '(st1, ts3) =>
     bind (limit_iter st1 ts3) (fun '(st2, ts4) =>
-      if limit_by d && fst (opt_tok (QK KBy) ts4) then OutOfFragment
-      else Ok (Query b ob (fst st2) (snd st2), ts4))))).
+      (* LIMIT n BY ..: read only after a LIMIT that has a value *)
+      if limit_by d && (is_some (fst st2) && fst (opt_tok (QK KBy) ts4)) then OutOfFragment
+      else Ok (Query w b ob (fst st2) (snd st2), ts4)))))).
 End Level.
 
-Fixpoint parse_lvl (d : qdialect) (fuel : nat)
-  : (list qtok -> res (query * list qtok)) * (N -> list qtok -> res (setexpr * list qtok)) :=
+Record parsers := {
+  pq : list qtok -> res (query * list qtok);
+  pb : N -> list qtok -> res (setexpr * list qtok);
+  pt : list qtok -> res (twj * list qtok)
+}.
+
+Fixpoint parse_lvl (d : qdialect) (fuel : nat) : parsers :=
   match fuel with
-  | O => (fun _ => OutOfFuel, fun _ _ => OutOfFuel)
+  | O => {| pq := fun _ => OutOfFuel; pb := fun _ _ => OutOfFuel; pt := fun _ => OutOfFuel |}
   | S f =>
       let lower := parse_lvl d f in
-      (query_step d (fst lower) (snd lower), body_step d (fst lower) (snd lower))
+      {| pq := query_step d (pq lower) (pb lower) (pt lower);
+         pb := body_step d (pq lower) (pb lower) (pt lower);
+         pt := twj_step d (pq lower) (pt lower) |}
   end.
 
 Definition parse_query (d : qdialect) (fuel : nat) : list qtok -> res (query * list qtok) :=
-  fst (parse_lvl d fuel).
+  pq (parse_lvl d fuel).
 Definition parse_body (d : qdialect) (fuel : nat) : N -> list qtok -> res (setexpr * list qtok) :=
-  snd (parse_lvl d fuel).
+  pb (parse_lvl d fuel).
+Definition parse_twj (d : qdialect) (fuel : nat) : list qtok -> res (twj * list qtok) :=
+  pt (parse_lvl d fuel).
 
 Definition is_qother (t : qtok) : bool :=
   match t with QOther | QE TOther => true | _ => false end.
@@ -516,12 +754,16 @@ Definition parse_query_top (d : qdialect) (ts : list qtok) : res (query * list q
   if existsb is_qother ts then OutOfFragment else parse_query d (S (length ts)) ts.
 
 (** * Boolean equality on trees *)
-Fixpoint list_eqb {A} (f : A -> A -> bool) (l m : list A) : bool :=
-  match l, m with
-  | [], [] => true
-  | x :: l', y :: m' => f x y && list_eqb f l' m'
-  | _, _ => false
-  end.
+Section ListEqb.
+  Context {A : Type}.
+  Variable f : A -> A -> bool.
+  Fixpoint list_eqb (l m : list A) : bool :=
+    match l, m with
+    | [], [] => true
+    | x :: l', y :: m' => f x y && list_eqb l' m'
+    | _, _ => false
+    end.
+End ListEqb.
 Definition opt_eqb {A} (f : A -> A -> bool) (a b : option A) : bool :=
   match a, b with
   | None, None => true
@@ -538,36 +780,61 @@ Definition item_eqb (a b : item) : bool :=
   end.
 Definition order_eqb (a b : expr * option bool) : bool :=
   expr_eqb (fst a) (fst b) && opt_eqb Bool.eqb (snd a) (snd b).
+Definition jkind_eqb (a b : jkind) : bool :=
+  match a, b with
+  | JInner, JInner | JLeft, JLeft | JRight, JRight | JFull, JFull => true
+  | _, _ => false
+  end.
+Definition jcons_eqb (a b : jcons) : bool :=
+  match a, b with
+  | JOn e, JOn e' => expr_eqb e e'
+  | JUsing c, JUsing c' => list_eqb qtok_eqb c c'
+  | JNatural, JNatural | JNone, JNone => true
+  | _, _ => false
+  end.
+Definition jop_eqb (a b : jop) : bool :=
+  match a, b with
+  | JCross, JCross => true
+  | JOp k c, JOp k' c' => jkind_eqb k k' && jcons_eqb c c'
+  | _, _ => false
+  end.
 
 Fixpoint setexpr_eqb (a b : setexpr) {struct a} : bool :=
   match a, b with
   | BSelect dist items from wh gb hv, BSelect dist' items' from' wh' gb' hv' =>
-      Bool.eqb dist dist' && list_eqb item_eqb items items' &&
-      (fix go (l m : list (tref setexpr)) {struct l} : bool :=
-         match l, m with
-         | [], [] => true
-         | t :: l', t' :: m' =>
-             match t, t' with
-             | TTable n al, TTable n' al' => qtok_eqb n n' && opt_eqb qtok_eqb al al'
-             | TDerived (Query x ob lim off) al, TDerived (Query x' ob' lim' off') al' =>
-                 setexpr_eqb x x' && list_eqb order_eqb ob ob' && opt_eqb expr_eqb lim lim' &&
-                 opt_eqb expr_eqb off off' && opt_eqb qtok_eqb al al'
-             | _, _ => false
-             end && go l' m'
-         | _, _ => false
-         end) from from' &&
+      Bool.eqb dist dist' && list_eqb item_eqb items items' && list_eqb twj_eqb from from' &&
       opt_eqb expr_eqb wh wh' && list_eqb expr_eqb gb gb' && opt_eqb expr_eqb hv hv'
   | BSetOp o q l r, BSetOp o' q' l' r' =>
       setop_eqb o o' && squant_eqb q q' && setexpr_eqb l l' && setexpr_eqb r r'
-  | BNested (Query x ob lim off), BNested (Query x' ob' lim' off') =>
-      setexpr_eqb x x' && list_eqb order_eqb ob ob' && opt_eqb expr_eqb lim lim' && opt_eqb expr_eqb off off'
+  | BNested q, BNested q' => query_eqb q q'
   | _, _ => false
-  end.
-
-Definition query_eqb (q q' : query) : bool :=
+  end
+with query_eqb (q q' : query) {struct q} : bool :=
   match q, q' with
-  | Query x ob lim off, Query x' ob' lim' off' =>
+  | Query w x ob lim off, Query w' x' ob' lim' off' =>
+      match w, w' with
+      | None, None => true
+      | Some y, Some y' => withc_eqb y y'
+      | _, _ => false
+      end &&
       setexpr_eqb x x' && list_eqb order_eqb ob ob' && opt_eqb expr_eqb lim lim' && opt_eqb expr_eqb off off'
+  end
+with tref_eqb (t t' : tref) {struct t} : bool :=
+  match t, t' with
+  | TTable n al, TTable n' al' => qtok_eqb n n' && opt_eqb qtok_eqb al al'
+  | TDerived q al, TDerived q' al' => query_eqb q q' && opt_eqb qtok_eqb al al'
+  | TNested x al, TNested x' al' => twj_eqb x x' && opt_eqb qtok_eqb al al'
+  | _, _ => false
+  end
+with twj_eqb (t t' : twj) {struct t} : bool :=
+  match t, t' with Twj r js, Twj r' js' => tref_eqb r r' && list_eqb join_eqb js js' end
+with join_eqb (j j' : join) {struct j} : bool :=
+  match j, j' with Join o r, Join o' r' => jop_eqb o o' && tref_eqb r r' end
+with withc_eqb (w w' : withc) {struct w} : bool :=
+  match w, w' with With rc cs, With rc' cs' => Bool.eqb rc rc' && list_eqb cte_eqb cs cs' end
+with cte_eqb (c c' : cte) {struct c} : bool :=
+  match c, c' with
+  | Cte n cols q, Cte n' cols' q' => qtok_eqb n n' && list_eqb qtok_eqb cols cols' && query_eqb q q'
   end.
 
 Fixpoint qtoks_eqb (a b : list qtok) : bool :=
@@ -581,25 +848,37 @@ Fixpoint qtoks_eqb (a b : list qtok) : bool :=
 Definition item_norm (i : item) : item :=
   match i with IWild => IWild | IExpr e => IExpr (norm e) | IAlias e w => IAlias (norm e) w end.
 Definition order_norm (x : expr * option bool) := (norm (fst x), snd x).
+Definition jop_norm (o : jop) : jop :=
+  match o with JOp k (JOn e) => JOp k (JOn (norm e)) | _ => o end.
 
 Fixpoint bnorm (b : setexpr) : setexpr :=
   match b with
   | BSelect dist items from wh gb hv =>
-      BSelect dist (map item_norm items)
-        (map (fun t => match t with
-                       | TTable n a => TTable n a
-                       | TDerived (Query b' ob lim off) a =>
-                           TDerived (Query (bnorm b') (map order_norm ob) (option_map norm lim) (option_map norm off)) a
-                       end) from)
+      BSelect dist (map item_norm items) (map twj_norm from)
         (option_map norm wh) (map norm gb) (option_map norm hv)
   | BSetOp o q l r => BSetOp o q (bnorm l) (bnorm r)
-  | BNested (Query b' ob lim off) =>
-      BNested (Query (bnorm b') (map order_norm ob) (option_map norm lim) (option_map norm off))
-  end.
-Definition qnorm (q : query) : query :=
+  | BNested q => BNested (qnorm q)
+  end
+with qnorm (q : query) : query :=
   match q with
-  | Query b ob lim off => Query (bnorm b) (map order_norm ob) (option_map norm lim) (option_map norm off)
-  end.
+  | Query w b ob lim off =>
+      Query (match w with Some x => Some (wnorm x) | None => None end)
+            (bnorm b) (map order_norm ob) (option_map norm lim) (option_map norm off)
+  end
+with tref_norm (t : tref) : tref :=
+  match t with
+  | TTable n a => TTable n a
+  | TDerived q a => TDerived (qnorm q) a
+  | TNested x a => TNested (twj_norm x) a
+  end
+with twj_norm (t : twj) : twj :=
+  match t with Twj r js => Twj (tref_norm r) (map join_norm js) end
+with join_norm (j : join) : join :=
+  match j with Join o r => Join (jop_norm o) (tref_norm r) end
+with wnorm (w : withc) : withc :=
+  match w with With rc cs => With rc (map cte_norm cs) end
+with cte_norm (c : cte) : cte :=
+  match c with Cte n cols q => Cte n cols (qnorm q) end.
 
 (** * Evaluation of one correspondence case inside the kernel (lib/props/c01query.py).
     [ts]: the crate's tokens of the input; [i]: what [Parser::parse_query] returned (tree and number of
